@@ -435,6 +435,8 @@ _dispatch_transform_from_utf16(dispatch_data_t data, int32_t byteOrder)
 			src = (uint16_t *)(((uint8_t *)src) + skip);
 			size -= skip;
 			max = (size / 2);
+			// offset is used below to locate code units in the whole data
+			offset += skip;
 			skip = 0;
 		}
 
@@ -456,7 +458,7 @@ _dispatch_transform_from_utf16(dispatch_data_t data, int32_t byteOrder)
 				if (range == NULL) {
 					return (bool)false;
 				}
-				ch = _dispatch_transform_swap_to_host((uint16_t)*(uint64_t*)p,
+				ch = _dispatch_transform_swap_to_host(*(const uint16_t *)p,
 						byteOrder);
 				dispatch_release(range);
 				skip += 1;
@@ -475,8 +477,9 @@ _dispatch_transform_from_utf16(dispatch_data_t data, int32_t byteOrder)
 			if ((ch >= 0xd800) && (ch <= 0xdbff)) {
 				// Surrogate pair
 				wch = ((ch - 0xd800u) << 10);
-				if (++i >= max) {
-					// Surrogate byte isn't in this block
+				if (++i >= size / 2) {
+					// Surrogate isn't (entirely) in this block: it is in the
+					// next one, or its first byte is the odd last byte here
 					const void *p;
 					dispatch_data_t range = _dispatch_data_subrange_map(data,
 							&p, offset + (i * 2), 2);
@@ -486,7 +489,8 @@ _dispatch_transform_from_utf16(dispatch_data_t data, int32_t byteOrder)
 					ch = _dispatch_transform_swap_to_host(*(uint16_t *)p,
 							byteOrder);
 					dispatch_release(range);
-					skip += 2;
+					// bytes of the following region(s) consumed so far
+					skip = (i * 2 + 2) - size;
 				} else {
 					ch = _dispatch_transform_swap_to_host(src[i], byteOrder);
 				}
